@@ -23,6 +23,7 @@ fn reader(name: &str, kind: Kind, stream: Vec<u8>, preset: Option<&[u8]>, worker
         finish: true,
         fail_at: 0,
         must_err: expect.is_err(),
+        mutant: false,
         expect: Arc::new(expect),
         units,
     }
@@ -42,6 +43,7 @@ fn writer(name: &str, kind: Kind, input: Vec<u8>, wops: Vec<WOp>, workers: u32) 
         fail_at: 0,
         units: 0,
         must_err: false,
+        mutant: false,
     }
 }
 
@@ -388,8 +390,80 @@ fn drop_variants(thorough: bool) -> Vec<(Scenario, u32)> {
             expect: Arc::new(Ok(vec![])),
             units: 0,
             must_err: false,
+            mutant: false,
         };
         v.push((s, bound));
+    }
+    v
+}
+
+/// C09, input dimension: every single-byte substitution (all 255 other values at header/trailer positions, four
+/// values at payload positions in the quick tier, all 255 in the thorough tier) and every truncation of small valid
+/// streams, each under every schedule within the bound. Oracle: every call returns, and the outcome agrees with the
+/// single-threaded reader on the same bytes.
+fn mutant_variants(thorough: bool) -> Vec<(Scenario, u32)> {
+    let mut v = vec![];
+    let unc2 = scen::stream_unc_units(2);
+    let (lzc2, _) = scen::stream_lzma2_small(2);
+    let (m2s, _) = scen::stream_lzip(&[10, 20]);
+    // positions whose every value is enumerated also in the quick tier
+    let lz_hdr: Vec<usize> = {
+        let mut h = vec![];
+        let mut i = 0;
+        while i < lzc2.len() && lzc2[i] != 0 {
+            let c = lzc2[i];
+            let (hl, cs) = if c >= 0x80 {
+                (5 + if c >= 0xC0 { 1 } else { 0 }, u16::from_be_bytes([lzc2[i + 3], lzc2[i + 4]]) as usize + 1)
+            } else {
+                (3, u16::from_be_bytes([lzc2[i + 1], lzc2[i + 2]]) as usize + 1)
+            };
+            // header and the first two payload bytes (range coder start)
+            h.extend(i..i + hl + 2);
+            i += hl + cs;
+        }
+        h.push(i);
+        h
+    };
+    let lzip_hdr: Vec<usize> = {
+        let mut h = vec![];
+        let mut end = m2s.len();
+        while end >= 26 {
+            let ms = u64::from_le_bytes(m2s[end - 8..end].try_into().unwrap()) as usize;
+            h.extend(end - 20..end);
+            h.extend(end - ms..end - ms + 7);
+            end -= ms;
+        }
+        h
+    };
+    let fams: [(&str, &Vec<u8>, Kind, Vec<usize>, u32); 3] = [
+        ("unc2", &unc2, Kind::R2 { preset: None }, (0..unc2.len()).collect(), if thorough { 2 } else { 1 }),
+        ("lzc2", &lzc2, Kind::R2 { preset: None }, lz_hdr, 1),
+        ("m2s", &m2s, Kind::RL, lzip_hdr, 1),
+    ];
+    for (fname, base, kind, all_pos, bound) in fams {
+        for i in 0..base.len() {
+            let full = thorough || all_pos.contains(&i);
+            let vals: Vec<u8> = if full {
+                (0..=255u8).filter(|b| *b != base[i]).collect()
+            } else {
+                let mut t = vec![base[i] ^ 1, base[i] ^ 0x80, 0x00, 0xFF];
+                t.retain(|b| *b != base[i]);
+                t.dedup();
+                t
+            };
+            for b in vals {
+                let mut m = base.clone();
+                m[i] = b;
+                let mut s = reader(&format!("mut/{fname}/sub@{i}={b:02x}"), kind.clone(), m, None, 2, 4096);
+                s.mutant = true;
+                v.push((s, bound));
+            }
+        }
+        for n in 0..base.len() {
+            let mut s = reader(&format!("mut/{fname}/trunc@{n}"), kind.clone(), base[..n].to_vec(), None, 2, 4096);
+            s.mutant = true;
+            v.push((s, bound));
+        }
     }
     v
 }
@@ -406,6 +480,7 @@ pub fn menu(prop: &str, thorough: bool) -> Vec<(Arc<Scenario>, u32)> {
             // valid runs must succeed as well ("never reports success with part of the data missing")
             v.extend(valid_readers(false).into_iter().filter(|(s, _)| matches!(s.workers, 2 | 0 | u32::MAX)).map(|(s, _)| (s, 1)));
             v.extend(valid_writers(false).into_iter().filter(|(s, _)| matches!(s.workers, 2 | 0 | u32::MAX)).map(|(s, _)| (s, 1)));
+            v.extend(mutant_variants(thorough));
             v
         }
         "C10" => drop_variants(thorough),
